@@ -8,6 +8,7 @@ import (
 	"io"
 	"reflect"
 	"sort"
+	"strings"
 	"testing"
 	"time"
 
@@ -142,7 +143,87 @@ func runScenario(src io.ReaderAt, size int64, mode pdf.ReaderErrorHandling, pw s
 		rd.Close()
 		out = append(out, stepResult{name: name, data: data, err: err, digest: "data"})
 	}
+	// pdf.Decode through one Extractor, every reference twice: the second
+	// pass meets whatever the first pass (which may have failed) left in the
+	// Extractor's cache.
+	cu := pdf.NewCursor(r)
+	for pass := 1; pass <= 2; pass++ {
+		for _, ref := range refs {
+			s, err := pdf.Decode(cu, ref, decodeOuter)
+			out = append(out, stepResult{name: fmt.Sprintf("Decode#%d %s", pass, ref), digest: string(s), err: err})
+		}
+	}
 	return out, r
+}
+
+// Two decoders with distinct result types (the Extractor caches per
+// reference and type).  decodeOuter renders an object and decodes every
+// reference directly inside it with decodeLeaf, which renders the target
+// without following references.  The result for a reference is therefore a
+// function of the file alone and does not depend on the order in which
+// references are decoded or on which earlier calls failed.
+type outerText string
+type leafText string
+
+func decodeLeaf(c pdf.Cursor, obj pdf.Object, direct bool) (leafText, error) {
+	if stm, ok := obj.(*pdf.Stream); ok {
+		return leafText("stream " + pdf.AsString(stm.Dict)), nil
+	}
+	return leafText(pdf.AsString(obj)), nil
+}
+
+func decodeOuter(c pdf.Cursor, obj pdf.Object, direct bool) (outerText, error) {
+	var b strings.Builder
+	var walk func(o pdf.Object, depth int) error
+	walk = func(o pdf.Object, depth int) error {
+		switch v := o.(type) {
+		case pdf.Reference:
+			s, err := pdf.Decode(c, v, decodeLeaf)
+			if err != nil {
+				if errors.Is(err, errInjected) || !pdf.IsMalformed(err) {
+					return err
+				}
+				// a reference cycle, or a broken target: part of the result
+				fmt.Fprintf(&b, "<%s: malformed>", v)
+				return nil
+			}
+			fmt.Fprintf(&b, "<%s: %s>", v, s)
+		case pdf.Array:
+			b.WriteString("[")
+			for _, e := range v {
+				if err := walk(e, depth+1); err != nil {
+					return err
+				}
+				b.WriteString(" ")
+			}
+			b.WriteString("]")
+		case pdf.Dict:
+			keys := make([]string, 0, len(v))
+			for k := range v {
+				keys = append(keys, string(k))
+			}
+			sort.Strings(keys)
+			b.WriteString("<<")
+			for _, k := range keys {
+				fmt.Fprintf(&b, "%q ", k)
+				if err := walk(v[pdf.Name(k)], depth+1); err != nil {
+					return err
+				}
+				b.WriteString(" ")
+			}
+			b.WriteString(">>")
+		case *pdf.Stream:
+			b.WriteString("stream ")
+			return walk(v.Dict, depth+1)
+		default:
+			b.WriteString(pdf.AsString(o))
+		}
+		return nil
+	}
+	if err := walk(obj, 0); err != nil {
+		return "", err
+	}
+	return outerText(b.String()), nil
 }
 
 // A fault scenario on these small documents takes well under 10 ms.  One that
